@@ -9,12 +9,12 @@ from . import instgen, lib, netobs, solve
 PID = "C15"
 
 
-def gen_case(rng, obs, tier):
+def gen_case(rng, obs, tier, nveh=None):
     ty = rng.randrange(max(1, obs.ntypes))
     sds = obs.usable_start_depots(ty)
     if not sds:
         return None
-    nveh = rng.choice([2, 3, 3, 4, 5])
+    nveh = nveh or rng.choice([2, 3, 3, 4, 5])
     paths = []
     caps = {}
     used = {}
@@ -114,6 +114,30 @@ def gen_case(rng, obs, tier):
     return {"ty": ty, "paths": paths, "tops": tops}
 
 
+def gen_opt_case(rng, obs, tier):
+    """cases for the transition optimiser: more vehicles, no tour replacement, the optimiser started from the greedy
+    transition, from one-cycle-per-vehicle, or after random moves; several runs in a row (the second from a local optimum)"""
+    c = gen_case(rng, obs, tier, nveh=rng.choice([3, 4, 5, 6, 7, 8]))
+    if c is None:
+        return None
+    vs = ["veh_%d" % k for k in range(len(c["paths"]))]
+    tops = []
+    r = rng.random()
+    if r < 0.4:
+        tops.append(["new"])
+    for _ in range(rng.choice([0, 0, 1, 2, 4])):
+        tops.append(["move", rng.choice(vs), rng.randrange(len(vs))])
+    tops.append(["optimise"])
+    if rng.random() < 0.5:
+        for _ in range(rng.choice([1, 2, 3])):
+            tops.append(["move", rng.choice(vs), rng.randrange(len(vs))])
+        tops.append(["optimise"])
+    if rng.random() < 0.3:
+        tops.append(["optimise"])
+    c["tops"] = tops
+    return c
+
+
 def encode_case(c):
     out = [str(c["ty"]), str(len(c["paths"]))]
     for p in c["paths"]:
@@ -130,7 +154,7 @@ def run_case(args):
     obs, st0 = netobs.observe(inst, d, "c%d" % k)
     if not obs.ok:
         return None
-    c = gen_case(rng, obs, tier)
+    c = gen_opt_case(rng, obs, tier) if k % 3 == 2 else gen_case(rng, obs, tier)
     if c is None:
         return None
     return run_trans(d, k, inst, c)
@@ -146,7 +170,9 @@ def run_trans(d, k, inst, c):
     impl = lib.read_lines(hout)
     perm = lib.perm_of(impl, inst)
     mpath = os.path.join(d, "c%d.min" % k)
-    blocks = [l for l in impl if l.split()[0] in ("TR", "CY", "LK", "EM")] if impl else []
+    blocks = [l for l in impl if l.split()[0] in ("TR", "CY", "LK", "EM", "TS", "CS", "LS", "ES")] if impl else []
+    # the optimiser's recorded steps are input of the model's replay, not observations to compare line by line
+    impl = [l for l in impl if l.split()[0] not in ("TS", "CS", "LS", "ES")]
     with open(mpath, "w") as f:
         f.write(" ".join(str(x) for x in instgen.encode(inst, perm)) + "\n" + encode_case(c) + "\nIMPL\n" +
                 "\n".join(blocks) + "\n")
@@ -246,7 +272,7 @@ def main(tier, seed):
                 if v1 is None or (v1, c1) > (v0, c0):
                     extra_bad.append(("optimiser-worsens", "type %s: (violation, counter) %s -> %s" % (ty, (v0, c0), (v1, c1))))
     rc = lib.conclude_diff(PID, tier, seed, t0, proof, results, None, features,
-                           strip_model_prefixes=("TINV ", "ICHK "),
+                           strip_model_prefixes=("TINV ", "ICHK ", "TOS "),
                            what="Transition after each rotation-cycle operation: cycles, counters, totals, successor, "
                                 "lookup table and empty-cycle list (hook); TInv on model and implementation states",
                            extra_cov={"operation_outcomes": op_hist(results),
